@@ -291,12 +291,31 @@ def check_stack(case):
     return {"evaluations": len(case["flips"]), "nontrivial": nontrivial, "labels": {}}
 
 
+# ---- scoped_iter / borrow: the flavour of the underlying iterable must not matter ------------
+
+
+def check_scoped(case):
+    from . import c08
+
+    for kind in ("list", "iter", "seq", "agen", "aclass"):
+        try:
+            c08.run_program(dict(case, kind=kind, raise_at=None, susp=0))
+        except Violation as v:
+            raise Violation(f"C03/scoped_iter/{v.bucket.split('/', 1)[1]}", f"underlying given as {kind}: {v.detail}",
+                            case=dict(case, kind=kind)) from None
+    return {"evaluations": 5, "nontrivial": ["list", "iter", "seq"] if len(case["items"]) >= 2 else [], "labels": {}}
+
+
 def shards(tier):
     out = [
         Shard(name, check, strategy=cases(name, tier), n=120, nontrivial=lambda c: False,
               thorough_mult=20)
         for name in ALL
     ]
+    from . import c08
+
+    out.append(Shard("scoped_iter-flavours", check_scoped, strategy=c08.programs(tier), n=400,
+                     nontrivial=lambda c: False, thorough_mult=20))
     out.append(Shard("exitstack-flavours", check_stack, strategy=stack_cases(), n=400,
                      nontrivial=lambda c: False, thorough_mult=20))
     out.append(Shard("surface", check_surface, cases=lambda: [{"entry": k} for k in _ensure_surface()],
